@@ -126,13 +126,15 @@ func Harness_C11_split() {
 	}
 	recs := verifRecords(maxRecs, maxLen, '\n')
 	if nondetBool("long-record") {
-		// one record longer than the bufio buffer: the ErrBufferFull continuation
-		long := make([]byte, 18)
+		// one record longer than (or exactly one or two times) the bufio buffer:
+		// the ErrBufferFull continuation, with the delimiter alone in a chunk
+		n := []int{18, 16, 32, 15, 17}[nondetChoice("long-length", 5)]
+		long := make([]byte, n)
 		for i := range long {
-			long[i] = 'a' + byte(i)
+			long[i] = 'a' + byte(i%26)
 		}
-		long[17] = nondetByte("long-last")
-		assume(long[17] != '\n')
+		long[n-1] = nondetByte("long-last")
+		assume(long[n-1] != '\n')
 		recs = append(recs, long)
 	}
 	sink := &verifSink{}
@@ -221,6 +223,15 @@ func Harness_C12_split() {
 		max = 6
 	}
 	data := nondetBytes("stream", max)
+	if nondetBool("buffer-sized-prefix") {
+		// the stream starts with exactly one bufio buffer of payload, so that a
+		// delimiter can arrive alone in its own chunk
+		pre := make([]byte, 16)
+		for i := range pre {
+			pre[i] = 'a' + byte(i)
+		}
+		data = append(pre, data...)
+	}
 	rx := verifSplitChan(newVerifStream(data), nil)
 	start := 0
 	for i := 0; i < len(data); i++ {
